@@ -22,7 +22,7 @@ TECHNIQUE = "model with explicit crash sites + differential classification of ev
 LEVEL = "proof"
 LEVEL_TEXT = ("Proved: C13_compile_no_other_exception (for every text of scalar values the model's compile() never ends in an exception other than a JSONPathError: no IndexError from the lexer's filter stack or "
               "the string decoder, no KeyError escaping the parser), C13_find_total_compiled (the query of every text that compiles evaluates to a nodelist on every well-formed value within the depth limit), "
-              "C13_eval_total_partial, C13_error_str_total. NOT proved (partial): that the fuel the model gives the lexer and parser loops always suffices (termination), decided by correspondence - on every "
+              "C13_tokenize_terminates (the lexer's state machine stops on every text: a potential function decreases at every transition), C13_eval_total_partial, C13_error_str_total. NOT proved (partial): that the fuel the model gives the PARSER's recursion always suffices (termination of the parser), decided by correspondence - on every "
               "generated string the implementation and the model agree on returned / error class / offset, and no other exception type escapes.")
 LEVEL_NOTE = "Partial for compile(). Trusted: Coq kernel; crash-site modelling; interpreter stack assumption; correspondence; extraction and driver."
 norm_reply = harness.norm_reply
@@ -81,7 +81,8 @@ def cases(ctx, budget):
         elif r < 0.8: text = "$[?@.a == %s%s]" % (rng.choice(["", "-"]), rng.choice(["1e400", "1" + "0" * 400, "1e-400", "0." + "0" * 400 + "1", "1e99999", "9" * 30 + "." + "9" * 30, "1E+309"]))
         else:
             base = gen.render_query(rng, gen.rand_query(rng, names=gen.NAMES if rng.random() < 0.3 else gen.SIMPLE_NAMES, depth=rng.randint(1, 3)))
-            text = harness.mutate_text(rng, base) if rng.random() < 0.6 else base
+            m = rng.random()
+            text = harness.mutate_text(rng, base) if m < 0.4 else (harness.mutate_struct(rng, base) if m < 0.8 else base)
         try:
             c = env.compile(text)
         except Exception as ex:
